@@ -553,6 +553,26 @@ impl Check for C13 {
                 cases.push(Case::new(format!("print(\"pre\")\n{}print(\"after\")\n", form.replace('@', params)), T_REF, format!("parameter list ({}) in {:?}, never called", params, form.replace('\n', " "))));
             }
         }
+        // the split of arguments over parameters and a collector does not depend on how the function is reached
+        for np in 0..=3usize {
+            for rest in [false, true] {
+                for na in 0..=5usize {
+                    let mut ps: Vec<String> = (0..np).map(|i| format!("p{}", i)).collect();
+                    if rest {
+                        ps.push("..r".to_string());
+                    }
+                    let mut names: Vec<String> = (0..np).map(|i| format!("p{}", i)).collect();
+                    if rest {
+                        names.push("r".to_string());
+                    }
+                    let args: Vec<String> = (1..=na).map(|i| (i * 10).to_string()).collect();
+                    for call in ["o.m(ARGS)", "o[\"m\"](ARGS)", "h := o.m\nh(ARGS)", "o.m([ARGS]..)", "o.via(ARGS)", "l[0](ARGS)"] {
+                        let src = format!("o := {{\"id\": \"O\", \"m\": fn ({}) {{\nprint([{}])\nreturn this.id\n}}, \"via\": fn (..all) {{\nreturn this.m(all..)\n}}}}\nl := [o.m]\nprint(\"pre\")\n{}\nprint(\"post\")\n", ps.join(", "), names.join(", "), call.replace("ARGS", &args.join(", ")));
+                        cases.push(Case::new(src, T_REF, format!("{} arguments over {} parameters{} through {}", na, np, if rest { " and a collector" } else { "" }, call.replace('\n', "; "))));
+                    }
+                }
+            }
+        }
         cases.push(Case::new(super::evalorder::SCOPING_PROGRAMS[0].to_string(), T_REF, "pattern keys that read names bound earlier in the same pattern".to_string()));
         let total = cases.len();
         let mut n_ok = 0;
